@@ -43,6 +43,7 @@ type h1Relay struct {
 	ManSeen  []string
 	SvcGiven []string // configs handed to watchBackend, in order
 	ManGiven []string
+	Order    []byte // 's' / 'm' per hand-over, in order
 	stop     chan struct{}
 }
 
@@ -165,6 +166,7 @@ func (e *h1Env) relayEvents() []simcore.Event {
 			v := *w.pendSvc
 			w.pendSvc = nil
 			w.SvcGiven = append(w.SvcGiven, v)
+			w.Order = append(w.Order, 's')
 			w.mu.Unlock()
 			e.r.Tracef("watchBackend <- svc #%d (%d bytes)", len(w.SvcGiven), len(v))
 			w.svcOut <- v
@@ -177,6 +179,7 @@ func (e *h1Env) relayEvents() []simcore.Event {
 			v := *w.pendMan
 			w.pendMan = nil
 			w.ManGiven = append(w.ManGiven, v)
+			w.Order = append(w.Order, 'm')
 			w.mu.Unlock()
 			e.r.Tracef("watchBackend <- man #%d (%d bytes)", len(w.ManGiven), len(v))
 			w.manOut <- v
